@@ -57,10 +57,10 @@ func cstatsProps(op *wire.Rec) info.PropMap {
 		prop.AllDamagePercent: op.Flt("alldmg"), prop.DOTDamagePercent: op.Flt("dot"), prop.BreakEffect: op.Flt("be"),
 		prop.AllDamageRES: op.Flt("allres"), prop.AllDamagePEN: op.Flt("allpen"), prop.AllDamageTaken: op.Flt("alltaken"),
 		prop.AllDamageReduce: op.Flt("reduce"), prop.Fatigue: op.Flt("fatigue"),
-		prop.CritChance: op.Flt("cc"), prop.CritDMG: op.Flt("cd"), prop.HealBoost: op.Flt("healboost"), prop.HealTaken: op.Flt("healtaken"),
+		prop.CritChance: op.Flt("cc"), prop.CritDMG: op.Flt("cd"), prop.HealBoost: op.Flt("healboost") / 2, prop.HealBoostConvert: op.Flt("healboost") / 2, prop.HealTaken: op.Flt("healtaken"),
 		prop.EnergyRegen: op.Flt("regen"), prop.AllStanceDMGPercent: op.Flt("stancepct"),
 		// percentage and flat parts of ATK and DEF (absent: 0): the stat is base x (1 + percent) + flat, not below 0
-		prop.ATKPercent: op.Flt("atkpct"), prop.ATKFlat: op.Flt("atkflat"), prop.DEFPercent: op.Flt("defpct"), prop.DEFFlat: op.Flt("defflat") * 0.25, prop.DEFConvert: op.Flt("defflat") * 0.75, // the flat part arrives as a flat and a converted addend
+		prop.ATKPercent: op.Flt("atkpct"), prop.ATKFlat: op.Flt("atkflat") / 2, prop.ATKConvert: op.Flt("atkflat") / 2, prop.DEFPercent: op.Flt("defpct"), prop.DEFFlat: op.Flt("defflat") * 0.25, prop.DEFConvert: op.Flt("defflat") * 0.75, // the flat part arrives as a flat and a converted addend
 	}
 	for i, v := range op.Flts("dmgpct") {
 		pm[prop.DamagePercent(dmgTypes[i])] = v
